@@ -75,6 +75,27 @@ def replay(case):
                 H = np.asarray(f.hessian(t), dtype=float)
                 if H.shape != (dim, dim) or any(not close(H[j, l], hess[j][l]) for j in range(dim) for l in range(dim)):
                     out.append(('%s:hessian' % fam, 'hessian(t) differs from the true Hessian (cfg %r)' % (_short(cfg),)))
+            # the returned arrays are the derivatives at t - also after the object has been evaluated at another point
+            # (a result must not be a buffer that a later call overwrites)
+            g_ret = f.gradient(t)
+            h_ret = f.hessian(t) if fam not in ('pgauss', 'bspline') else None
+            t2 = 0.5 * t + 0.0625
+            try:
+                f.gradient(t2)
+                if h_ret is not None:
+                    f.hessian(t2)
+                f.partial(t2, cfg['idx'] % dim)
+                f(t2)
+            except Exception:
+                pass
+            g2 = np.asarray(g_ret, dtype=float)
+            if g2.shape != (dim,) or any(not close(g2[j], grad[j]) for j in range(dim)):
+                out.append(('%s:gradient:overwritten' % fam, 'the array returned by gradient(t) changed after a call at another point: '
+                            '%r, expected %r (cfg %r)' % (g2, grad, _short(cfg))))
+            if h_ret is not None:
+                H2 = np.asarray(h_ret, dtype=float)
+                if H2.shape != (dim, dim) or any(not close(H2[j, l], hess[j][l]) for j in range(dim) for l in range(dim)):
+                    out.append(('%s:hessian:overwritten' % fam, 'the array returned by hessian(t) changed after a call at another point (cfg %r)' % (_short(cfg),)))
             # evaluation on an array of points equals evaluation point by point
             if fam != 'bspline':
                 T = np.stack([t, t + 0.125, 2 * t - 0.5], axis=1)
